@@ -8,10 +8,10 @@ from . import build, treegen as TG, treejudge as TJ, treemodel as TM, treerun as
 NCPU = os.cpu_count() or 4
 
 PROFILES = {
-    "C13": dict(spec=dict(p_ig=0.15, p_args=0.35, p_generic=0.25, max_benches=14), cfg=dict(actions=["test", "test", "test", "bench", "terse", "list"], p_filters=0.95, p_ignore_flag=0.4, p_sort=0.2)),
-    "C14": dict(spec=dict(p_ig=0.35, p_args=0.35, p_generic=0.2, max_benches=12), cfg=dict(actions=["list", "terse", "list_benches"], p_filters=0.5, p_ignore_flag=0.7, p_sort=0.2)),
-    "C15": dict(spec=dict(p_sc=0.5, p_ss=0.6, p_th=0.35, p_ig=0.25, p_ctr=0.35, p_time=0.15, p_bcounter=0.25, p_group=0.7, max_benches=10, p_args=0.15, p_generic=0.15),
-                cfg=dict(actions=["bench", "bench", "bench", "test", "list"], p_filters=0.1, p_ignore_flag=0.4, p_sort=0.1, p_runner_opts=0.7, time_opts=True,
+    "C13": dict(spec=dict(p_ig=0.15, p_args=0.35, p_generic=0.25, max_benches=14, p_time=0.1), cfg=dict(actions=["test", "test", "test", "bench", "terse", "list"], p_filters=0.95, p_ignore_flag=0.4, p_sort=0.2, p_timer_flag=0.3)),
+    "C14": dict(spec=dict(p_ig=0.35, p_args=0.35, p_generic=0.2, max_benches=12, p_time=0.25, time_kinds=[0, 0, 0, 1, 2], p_coarse_counter=0.6), cfg=dict(actions=["list", "terse", "list_benches"], p_filters=0.5, p_ignore_flag=0.7, p_sort=0.2, p_timer_flag=0.4)),
+    "C15": dict(spec=dict(p_sc=0.5, p_ss=0.6, p_th=0.35, p_ig=0.25, p_ctr=0.35, p_time=0.15, p_bcounter=0.25, p_group=0.7, max_benches=10, p_args=0.15, p_generic=0.15, p_coarse_counter=0.2),
+                cfg=dict(actions=["bench", "bench", "bench", "test", "list"], p_filters=0.1, p_ignore_flag=0.4, p_sort=0.1, p_runner_opts=0.7, time_opts=True, p_timer_flag=0.3,
                          decoys={"sc": [4, 6, 9], "ss": [5, 6], "th": [[1], [5], [2, 3]], "c0": [3], "c1": [3], "c2": [3], "c3": [3]})),
     "C16": dict(spec=dict(p_ig=0.05, p_args=0.4, p_generic=0.3, max_benches=18, min_benches=4), cfg=dict(actions=["test", "list", "test"], p_filters=0.15, p_ignore_flag=0.2, p_sort=0.9)),
     "C17": dict(spec=dict(p_ig=0.05, p_args=0.55, p_generic=0.35, max_benches=10, p_th=0.15), cfg=dict(actions=["test", "test", "bench"], p_filters=0.5, p_ignore_flag=0.3, p_sort=0.7)),
@@ -218,6 +218,19 @@ def c14_differential(prop, results, exe, out, tier, seed):
             detail = classify_terse_diff(sp, it, missing, extra)
             out.violation("C14:%s:%s" % (code, detail), "terse listing differs from what `--test` with the same filters and ignore flags (%s) executes: not listed %s, listed but not run %s" % (
                 it.ignore_mode, missing[:4], extra[:4]), replay_payload(sp, cfg, res))
+        # "would execute": a listed case whose budget is not zero is really called by the test run (once per thread)
+        itt = it_for_test(it)
+        for ex_ in executions:
+            c = ex_["case"]
+            k = (c.leaf.bench.bid, c.arg[1] if c.arg else None, c.leaf.ty, c.leaf.const)
+            sim = TM.simulate_execution(ex_, sp, itt)
+            if sim is None or not sim.get("calls"):
+                continue
+            mine = [r for r in lg2["runs"] if (r["bid"], r["arg"], r["ty"], r["const"]) == k]
+            if mine and not any(r["calls"] for r in mine):
+                stats["listed_never_called"] = stats.get("listed_never_called", 0) + 1
+                out.violation("C14:listed_but_never_called", "'%s' is listed, and a test run with the same flags visits it, but never calls its function although its budget is not zero (%s)" % (
+                    c.path(), ex_["eff"]), replay_payload(sp, cfg, res))
         # exact round trip on a sample of listed paths (unique paths only)
         uniq = [p for p in listed if listed.count(p) == 1 and not p.split("::")[-1].startswith("-")]
         all_paths = [c.path() for c in TG.cases(mroots)]
